@@ -290,7 +290,7 @@ def main():
     chk.merge(hashseed_conformance(chk))
     chk.assumptions += ["stub kernel whose likelihood is a fixed function of the row; pymc's pm.draw(random_seed=Generator) is trusted to be a function of the generator state",
                         "no state merging: every history is executed on fresh objects"]
-    return chk.finish()
+    return chk.finish(run_case)
 
 
 def replay(doc):
